@@ -120,4 +120,18 @@ theorem C18_free_blocks_writes_nothing (c : Cfg) (v : Nat) (entry : Blk) (s : St
   refine Post.mono _ _ _ _ _ (freeFileBlocks_quiet c v entry s s (Quiet.rfl' s)) ?_
   intro _ s' hq; exact ⟨hq.1, hq.2.2⟩
 
+/-- `adfSetEntryAccess` and `adfSetEntryComment` (volumes without directory cache) write at most ONE block, for every
+    disk content and fault schedule: no bitmap, no directory, no other entry -/
+theorem C18_access_write_set (c : Cfg) (v parSect : Nat) (name : Bytes) (acc : Nat) (s : St)
+    (hnc : isDIRCACHE (c.vol v).dosType = false) :
+    Post AnyFault c (setEntryAccess v parSect name acc) s (fun _ s' =>
+      ∃ W, writesOf s'.trace = W ++ writesOf s.trace ∧ OneWriteTo c v W) :=
+  setEntryAccess_write_set c v parSect name acc s hnc
+
+theorem C18_comment_write_set (c : Cfg) (v parSect : Nat) (name cmt : Bytes) (s : St)
+    (hnc : isDIRCACHE (c.vol v).dosType = false) :
+    Post AnyFault c (setEntryComment v parSect name cmt) s (fun _ s' =>
+      ∃ W, writesOf s'.trace = W ++ writesOf s.trace ∧ OneWriteTo c v W) :=
+  setEntryComment_write_set c v parSect name cmt s hnc
+
 end Adf.C18
